@@ -17,7 +17,7 @@ META = dict(
                "symbols is irrelevant when termSort's comparison is total (Logic; ArithLogic with the tie-break of fix c8000f0) and "
                "provably NOT for LessThan_deepPTRef without it (refuted theorem, history); the check selects the variant by observed "
                "behaviour and a recurrence of the old one is a violation. Tie: every run replays "
-               "PRNG construction sequences (raw mkFun level and simplifying constructors, QF_UF / QF_UFLIA / QF_UFLRA) on the "
+               "PRNG construction sequences (raw mkFun level and simplifying constructors, QF_UF / QF_UFLIA / QF_UFLRA / QF_LIA / QF_LRA) on the "
                "extracted model with exact identity comparison and checks the final store dump.",
     level_note="Trusted: Coq kernel, extraction, ocaml/hashcons_driver.ml (trace parsing, int<->nat), harness/h_hashcons.cc (exposes the "
                "protected Logic::mkFun through a derived class; reports symbol flags as the implementation answers them). Modelled "
@@ -32,8 +32,9 @@ META = dict(
                  "API precondition: argument PTRefs passed to constructors are valid terms of the same Logic object, well-sorted"],
     rule="PRNG construction sequences (<= 60 operations) over a bounded signature (f/1 g/2 h/3 p/2 c/2-commutative, =, distinct, ite, and, or, "
          "not, Bool-=; in arithmetic modes + * = <= uf/1 distinct cn/2-commutative), <= 4 variables per sort, depth <= 4, with verbatim repeats "
-         "and argument permutations of earlier constructions; six modes (raw mkFun level / simplifying constructors x QF_UF, QF_UFLIA, "
-         "QF_UFLRA); a sequence is non-trivial when it has >= 10 executed operations and at least one repeat or permutation; distinct = "
+         "and argument permutations of earlier constructions; eight modes (raw mkFun level x QF_UF, QF_UFLIA, QF_UFLRA; simplifying constructors x those and QF_LIA, QF_LRA); "
+         "one sequence in five per mode first uses up the 32 distinction classes of mkDistinct and goes on; after every sequence the harness "
+         "re-issues all its calls (nothing may be allocated); a sequence is non-trivial when it has >= 10 executed operations and at least one repeat or permutation; distinct = "
          "distinct sequence text",
 )
 
@@ -48,7 +49,7 @@ SIG_AR.update({
     12: (("N", 2, 5), "N", True), 13: (["N", "N"], "N", True), 14: (["N", "N"], "B", True), 15: (["N", "N"], "B", False),
     16: (["N"], "N", False), 17: (("N", 2, 4), "B", True), 18: (["N", "N"], "N", True),
 })
-MODES = ["raw_uf", "raw_lia", "raw_lra", "simp_uf", "simp_lia", "simp_lra"]
+MODES = ["raw_uf", "raw_lia", "raw_lra", "simp_uf", "simp_lia", "simp_lra", "simp_qlia", "simp_qlra"]   # q: QF_LIA / QF_LRA (no UF)
 
 
 class Gen:
@@ -176,6 +177,45 @@ class Gen:
         self.repeats += 1
         return True
 
+    def make_exhaust(self):
+        """More n-ary (n > 2) distinct argument sets than there are distinction classes (8*sizeof(dist_t) = 32), then
+        further mkDistinct calls on new and on old sets, repeated and permuted: the constructor's own hash-consing path
+        with the per-Logic resource used up."""
+        import itertools
+        r = self.rng
+        so = "N" if (self.arith and r.random() < 0.5) else "U"
+        for k in range(4):
+            self.push("V %s %d" % (so, k), so, 0)
+        un, bi = (16, 18) if so == "N" else (0, 11 if r.random() < 0.5 else 1)
+        app = "F" if self.raw else "U"
+        self.push("%s %d 0" % (app, un), so, 1)
+        self.push("%s %d 1" % (app, un), so, 1)
+        self.push("%s %d 0 1" % (app, bi), so, 1)
+        self.push("%s %d 2 3" % (app, bi), so, 1)
+        base = list(range(8))
+        sets = [list(c) for c in itertools.combinations(base, 3)]
+        r.shuffle(sets)
+        first = sets[:r.randint(33, 37)]
+        later = sets[len(first):len(first) + 3] + [list(c) for c in r.sample(list(itertools.combinations(base, 4)), 2)]
+        for a in first:
+            r.shuffle(a)
+            self.push("D " + " ".join(map(str, a)), "B", 2)
+        tail = []
+        for a in later:
+            for _ in range(r.randint(2, 3)):
+                b = list(a)
+                r.shuffle(b)
+                tail.append(b)
+        for a in r.sample(first, 3):
+            b = list(a)
+            r.shuffle(b)
+            tail.append(b)
+        r.shuffle(tail)
+        for a in tail:
+            self.push("D " + " ".join(map(str, a)), "B", 2)
+            self.repeats += 1
+        return self.mode + " " + ";".join(self.ops)
+
     def make(self):
         r = self.rng
         for so in ["U", "U", "B", "B"] + (["N", "N", "N"] if self.arith else []):
@@ -203,7 +243,7 @@ def parse_blocks(text):
         if not t:
             continue
         if t[0] == "BEGIN":
-            cur = dict(mode=t[1], ops=[], isyms={}, fsyms={}, inodes=[], fnodes=[], order=True, crash=None, consts=None, sig=[])
+            cur = dict(mode=t[1], ops=[], isyms={}, fsyms={}, inodes=[], fnodes=[], order=True, crash=None, consts=None, sig=[], reissue="ok")
             phase = 0
         elif cur is None:
             if t[0] == "CRASH":
@@ -221,6 +261,8 @@ def parse_blocks(text):
         elif t[0] == "ORDER":
             if t[1] != "ok":
                 cur["order"] = False
+        elif t[0] == "REISSUE":
+            cur["reissue"] = " ".join(t[1:])
         elif t[0] == "OPS":
             phase = 1
         elif t[0] == "FINAL":
@@ -265,7 +307,9 @@ def judge_block(b):
     ids = [i for i, _, _ in b["fnodes"]]
     if ids != list(range(len(ids))) or not b["order"]:
         out.append(("ids-not-monotone", "ids %s..." % ids[:8]))
-    node_sort_is_bool = {}
+    if b.get("reissue", "ok") != "ok":
+        # whole-store audit of the harness: every constructor call of the sequence issued a second time
+        out.append(("rebuild-allocates", b["reissue"]))
     exact, perm, spell = {}, {}, {}
     for (k, s, a, res) in b["ops"]:
         if k == "skip" or res == "exc":
@@ -342,7 +386,10 @@ def run(ctx):
     for i in range(n):
         mode = MODES[i % len(MODES)]
         g = Gen(ctx.rng, mode, ctx.rng.randint(12, 60))
-        seqs.append((g.make(), "rng", g.repeats))
+        if i % 40 >= 32:           # 8 of every 40 sequences (one per mode) exhaust the distinction classes
+            seqs.append((g.make_exhaust(), "exhaust", g.repeats))
+        else:
+            seqs.append((g.make(), "rng", g.repeats))
     arith_variants = set()
     notes = {}
     for lo in range(0, len(seqs), 2000):          # batches keep the trace text small
@@ -368,7 +415,7 @@ def _judge_all(ctx, seqs, blocks, verd, arith_variants, notes):
         vd = dict(x.split("=", 1) for x in v[3:])
         mode = b["mode"]
         nexec = sum(1 for o in b["ops"] if o[0] != "skip")
-        ctx.case(key=text, nontrivial=(nexec >= 10 and nrep >= 1) or origin == "corpus", kind=mode + ("/corpus" if origin == "corpus" else ""),
+        ctx.case(key=text, nontrivial=(nexec >= 10 and nrep >= 1) or origin == "corpus", kind=mode + ("/" + origin if origin != "rng" else ""),
                  sample=dict(sequence=text[:300], terms=len(b["fnodes"]), verdict=" ".join(v[3:])))
         # --- tie: which model variant reproduces the implementation exactly
         explained = None
